@@ -22,8 +22,8 @@ Bytes4(p) == <<p[1] \div 256, p[1] % 256, p[2] \div 256, p[2] % 256>>
 \* segment: [ep |-> "c"|"s", syn, ack : BOOLEAN, ts : pair, t : ms]
 SegHdr(s, hiports) ==
   LET base == BaseHdr(4)
-      cport == 40000
-      sport == IF hiports THEN 8080 ELSE 80
+      cport == s.cp
+      sport == IF hiports THEN 8080 ELSE s.sp
       fl == (IF s.syn THEN SYN ELSE 0) + (IF s.ack THEN ACK ELSE 0)
       ol == [opts |-> <<[k |-> "nop"], [k |-> "nop"], [k |-> "ts", val |-> Bytes4(s.ts), ecr |-> Zero4]>>, trail |-> <<>>]
   IN WithOpts([base EXCEPT !.src = IF s.ep = "c" THEN Src4 ELSE Dst4, !.dst = IF s.ep = "c" THEN Dst4 ELSE Src4,
@@ -36,13 +36,14 @@ Run(segs, i, cur, acc) ==
   IF i > Len(segs) THEN acc
   ELSE LET s == segs[i]
            rs == UNION {Observe(e, s.ts, s.t, {}) : e \in cur[s.ep]}
-           role == RoleOf(s.syn, s.ack, IF s.ep = "c" THEN 40000 ELSE 80, IF s.ep = "c" THEN 80 ELSE 40000)
+           role == RoleOf(s.syn, s.ack, IF s.ep = "c" THEN s.cp ELSE s.sp, IF s.ep = "c" THEN s.sp ELSE s.cp)
        IN Run(segs, i + 1, [cur EXCEPT ![s.ep] = {r.next : r \in rs}],
               Append(acc, [role |-> role, outs |-> SetToSeq({r.out : r \in rs}),
                            devouts |-> SetToSeq({r.out : r \in UNION {Observe(e, s.ts, s.t, {"D19_guess_returns_base"}) : e \in cur[s.ep]}})]))
 Expect(segs) == Run(segs, 1, [ep \in {"c", "s"} |-> {None}], <<>>)
 
-Seg(ep, syn, ack, ts, t) == [ep |-> ep, syn |-> syn, ack |-> ack, ts |-> ts, t |-> t]
+Seg(ep, syn, ack, ts, t) == [ep |-> ep, syn |-> syn, ack |-> ack, ts |-> ts, t |-> t, cp |-> 40000, sp |-> 80]
+SegP(ep, ts, t, cp, sp) == [ep |-> ep, syn |-> FALSE, ack |-> TRUE, ts |-> ts, t |-> t, cp |-> cp, sp |-> sp]
 
 DmsS == <<24, 25, 26, 99, 100, 101, 1000, 10000, 599999, 600000, 600001>>
 BaseS == <<P(0, 1000), P(32767, 65000), P(65535, 65000), P(12345, 54321)>>
@@ -81,8 +82,17 @@ BackCase(k) ==
   <<Seg("c", TRUE, FALSE, P(1000, 1000), T0), Seg("c", FALSE, TRUE, Sub32(P(1000, 1000), P(0, 3 + 100 * k)), T0 + 50 + 10 * k),
     Seg("c", FALSE, TRUE, P(1000, 3000), T0 + 2000)>>
 
-CaseOf(k) == CASE Fam = "freq" -> FreqCase(k) [] Fam = "both" -> BothCase(k) [] Fam = "bad" -> BadCase(k) [] Fam = "back" -> BackCase(k)
-NOf == CASE Fam = "freq" -> NFreq [] Fam = "both" -> NBoth [] Fam = "bad" -> NBad [] Fam = "back" -> NBack
+\* role: segments outside the handshake, attributed by the well-known-port rule (sender port above 1024 and receiver port at most
+\* 1024 = client), with ports on both sides of the boundary; both directions produce an estimate
+PortPairs == <<<<40000, 1024>>, <<40000, 1023>>, <<40000, 1025>>, <<1025, 1024>>, <<1024, 1024>>, <<1024, 80>>, <<1025, 80>>, <<65535, 1>>, <<1025, 1025>>, <<80, 40000>>>>
+NRole == Len(PortPairs)
+RoleCase(k) ==
+  LET pp == PortPairs[k + 1] IN
+  <<SegP("c", P(10, 1000), T0, pp[1], pp[2]), SegP("s", P(20, 500), T0 + 5, pp[1], pp[2]), SegP("c", P(10, 1200), T0 + 200, pp[1], pp[2]),
+    SegP("s", P(20, 600), T0 + 1005, pp[1], pp[2])>>
+
+CaseOf(k) == CASE Fam = "role" -> RoleCase(k) [] Fam = "freq" -> FreqCase(k) [] Fam = "both" -> BothCase(k) [] Fam = "bad" -> BadCase(k) [] Fam = "back" -> BackCase(k)
+NOf == CASE Fam = "role" -> NRole [] Fam = "freq" -> NFreq [] Fam = "both" -> NBoth [] Fam = "bad" -> NBad [] Fam = "back" -> NBack
 
 Emit(k) ==
   LET segs == CaseOf(k) IN
